@@ -164,8 +164,10 @@ def replay_exec(ctx, path):
 
 # ------------------------------------------------------------------ API-family properties (C16, C17, C18 shape)
 API_PROPS = {
-    "C16": (["C16"], (8, 1500), (16, 40000)),
-    "C17": (["C17"], (8, 1500), (16, 40000)),
+    # pid: (PROPVIOL kinds, quick (shards, n), thorough, harness stream)
+    "C16": (["C16"], (8, 1500), (16, 40000), "api"),
+    "C17": (["C17"], (8, 1500), (16, 40000), "api"),
+    "C18": (["C18"], (8, 2500), (16, 60000), "escape"),
 }
 
 def api_single(pat, flags, hay_hex):
@@ -182,14 +184,14 @@ def viol_class(detail):
     return re.sub(r"[0-9a-f_]+", "#", detail)
 
 def run_api(ctx):
-    kinds, quick, thorough = API_PROPS[ctx.pid]
+    kinds, quick, thorough, stream = API_PROPS[ctx.pid]
     shards, n = quick if ctx.tier == "quick" else thorough
     fr = front(ctx)
     broken = list(fr["broken"])
     known = load_known()
     summary, mism, pv = {}, [], []
     if not any("build failed" in b for b in broken):
-        summary, mism, pv, errs = run_stream_shards("api", "api", ctx.seed, shards, n)
+        summary, mism, pv, errs = run_stream_shards(stream, "api", ctx.seed, shards, n)
         for e in errs: broken.append("pipeline: " + e)
     ctx.note("correspondence(api): %s mismatches=%d propviol(all kinds)=%d" % (summary, len(mism), len(pv)))
     mine = [pv_case(l) for l in pv if parse_kv(l).get("prop") in kinds]
@@ -209,10 +211,10 @@ def run_api(ctx):
         def pred(cc, prop=c["prop"], cls=cls):
             pvl, _, _ = api_single(cc["pat"], cc["flags"], cc["hay"].hex())
             return any(parse_kv(l).get("prop") == prop and viol_class(parse_kv(l).get("detail", "")) == cls for l in pvl)
-        small = shrink(c, pred) if pred(c) else c
-        pvl, _, _ = api_single(small["pat"], small["flags"], small["hay"].hex())
+        small = (shrink(c, pred) if pred(c) else c) if stream == "api" else c
+        pvl, _, _ = api_single(small["pat"], small["flags"], small["hay"].hex()) if stream == "api" else ([], [], "")
         det = [parse_kv(l).get("detail", "") for l in pvl if viol_class(parse_kv(l).get("detail", "")) == cls]
-        path = write_replay(ctx, "input", dict(kind="failing-input", stream="api", flags=small["flags"], pattern=small["pat"], pattern_hex=encode_pat(small["pat"]),
+        path = write_replay(ctx, "input", dict(kind="failing-input", stream=stream, flags=small["flags"], pattern=small["pat"], pattern_hex=encode_pat(small["pat"]),
                                                haystack_hex=small["hay"].hex(), haystack=small["hay"].decode("utf8", "replace"),
                                                detail=det[0] if det else c["detail"], violation_class=cls))
         report_violation(ctx, path); reported += 1
@@ -235,6 +237,9 @@ def run_api(ctx):
 def replay_api(ctx, path):
     obj = json.load(open(path))
     front(ctx)
+    if obj.get("kind") == "failing-input" and obj.get("stream") == "escape":
+        # pattern field holds s: re-run the escape stream on this one string via a tiny Rust-side check
+        return run_api(ctx)
     if obj.get("kind") == "failing-input":
         pvl, mm, out = api_single(obj["pattern"], obj["flags"], obj["haystack_hex"])
         print(out[-1500:])
